@@ -112,7 +112,7 @@ func ruleC01SingleWriter(c *Ctx) {
 			}
 		}
 	}
-	if n < 6 {
+	if n < half(6) {
 		c.unresolved("only %d mutator call sites found (expected >= 6)", n)
 	}
 	// SQL write API only in the persister package (generated code and migrations aside)
@@ -459,7 +459,7 @@ func ruleC01AppendThenIndex(c *Ctx) {
 				"trailer written, writer closed, then the appended records are replayed into the operation's own index", "recovery.Index is reached without cleanup/CloseWriter having succeeded, or replays into a different index store")
 		})
 	}
-	if nops < 4 {
+	if nops < half(4) {
 		c.unresolved("only %d functions call WriteHeader (expected 4)", nops)
 	}
 }
